@@ -50,6 +50,11 @@ FAULTS = [
     lambda o: ['op', '+', ['miss', 'ref', 'ZZGONE!A1'], ['c', V.N(1)]],
     lambda o: ['fn', 'IFERROR', [['miss', 'ref', 'ZZGONE!B2:C3'], ['c', V.N(4)]]],
     lambda o: ['miss', 'ref', "'[ZZZ.XLSX]S1'!A1"],
+    # absent workbooks whose names are not written in capitals (they sort after the others)
+    lambda o: ['op', '+', ['miss', 'ref', "'[zeta.xlsx]S1'!A1"], ['c', V.N(1)]],
+    lambda o: ['fn', 'IFERROR', [['miss', 'ref', "'[Zeta Two.xlsx]S1'!B2"], ['c', V.N(6)]]],
+    lambda o: ['op', '+', ['fn', 'IFERROR', [['miss', 'ref', "'[zeta.xlsx]S1'!A1"], ['c', V.N(2)]]],
+               ['fn', 'IFERROR', [['miss', 'ref', "'[alpha gone.xlsx]S1'!C3"], o]]],
     # unknown functions whose dotted names END in the name of an implemented function
     lambda o: ['miss', 'fn', '_xlfn.ECMA.CEILING(4.3,1)'],
     lambda o: ['fn', 'IFERROR', [['miss', 'fn', '_xlfn.STATS.MAX(1,7)'], ['c', V.N(3)]]],
